@@ -86,7 +86,7 @@ def returns_of(func: Func) -> list[ast.Return]:
 
 
 def is_const(node: Optional[ast.AST], value: object) -> bool:
-    return isinstance(node, ast.Constant) and node.value is value
+    return isinstance(node, ast.Constant) and type(node.value) is type(value) and node.value == value
 
 
 def loop_targets_with_origin(it: Interp, site: ast.AST, suffix: str) -> set[str]:
